@@ -646,6 +646,8 @@ func TestC16(t *testing.T) {
 		i := i
 		jobs = append(jobs, func(idx int, em *Emitter) { runProxyResetE2E(t, idx, i, em) })
 	}
+	// the server's reply rule (return route echoed): tie of Model/Proxy.v reply_of to the real Server
+	jobs = append(jobs, func(idx int, em *Emitter) { runServerReplyTie(t, idx, em) })
 	// free-running stress judged by the property predicates
 	for i := 0; i < proxyFreeCount(); i++ {
 		i := i
